@@ -106,6 +106,27 @@ fn check_cipher(c: &mut Case, builder: &ArchiveBuilder, key: u32, buf: &[u8], ct
             json!({"key": key, "buf": hex(&buf[..buf.len().min(64)]), "len": buf.len()}),
         );
     }
+    // (2b) "every buffer" includes buffers that do not start on a 4-byte boundary (a file's bytes inside a larger image):
+    // the same bytes at every start alignment give the same cipher text and decrypt back, and nothing outside is touched
+    for off in 0..8usize {
+        let mut backing = vec![0xEEu8; off + buf.len() + 8];
+        backing[off..off + buf.len()].copy_from_slice(buf);
+        builder.encrypt_data(&mut backing[off..off + buf.len()], key);
+        c.count("cipher_unaligned_slices", 1);
+        if backing[off..off + buf.len()] != encb[..] {
+            c.violate(format!("cipher-bytes-depend-on-alignment|encrypt|{kc}"), format!("encrypt_data gives different bytes for the same buffer at address offset {off}, key={key:#x} len={}", buf.len()), json!({"key": key, "len": buf.len(), "offset": off}));
+            break;
+        }
+        decrypt_file_data(&mut backing[off..off + buf.len()], key);
+        if backing[off..off + buf.len()] != buf[..] {
+            c.violate(format!("cipher-bytes-depend-on-alignment|decrypt|{kc}"), format!("decrypt_file_data does not invert encrypt_data for a buffer at address offset {off}, key={key:#x} len={}", buf.len()), json!({"key": key, "len": buf.len(), "offset": off}));
+            break;
+        }
+        if backing[..off].iter().chain(&backing[off + buf.len()..]).any(|b| *b != 0xEE) {
+            c.violate(format!("cipher-bytes-write-outside-buffer|{kc}"), format!("byte wrappers modified memory outside the buffer (offset {off}, len {})", buf.len()), json!({"key": key, "len": buf.len(), "offset": off}));
+            break;
+        }
+    }
     // (3) the dword-aligned prefix of the byte wrapper equals the dword API
     if key != 0 && buf.len() >= 4 {
         let n4 = buf.len() / 4 * 4;
